@@ -76,6 +76,44 @@ Theorem C03_merge_edges (a b : value) :
   NoDup (fst (merge_graph a b)) /\ NoDup (snd (merge_graph a b)).
 Proof. exact (merge_graph_spec a b). Qed.
 
+
+(* merge with list operands (`x & [y, z]`, `m &= [y, z]`, `merge(x, y, [z, w])`; [bs] = the flattened operands):
+   every operand node once, every pre-existing edge, nothing else *)
+Theorem C03_merge_list_edges (a : value) (bs : list value) :
+  (forall n, In n (fst (merge_graph_l a bs)) <-> In n (v_nodes a) \/ exists b, In b bs /\ In n (v_nodes b)) /\
+  (forall e, In e (snd (merge_graph_l a bs)) <-> In e (v_edges a) \/ exists b, In b bs /\ In e (v_edges b)) /\
+  NoDup (fst (merge_graph_l a bs)) /\ NoDup (snd (merge_graph_l a bs)).
+Proof. exact (merge_graph_l_spec a bs). Qed.
+
+(* in-place merge `m &= bs` (Model.update_graph): a rejected update leaves the model object exactly as it was; an
+   accepted one makes it the out-of-place merge; an update that closes a directed cycle is rejected *)
+Theorem C03_update_rejected_is_identity isc nm (m : model) (bs : list value) :
+  fst (update_graph isc nm m bs) = ErrCycle -> snd (update_graph isc nm m bs) = m.
+Proof. exact (update_graph_rejected isc nm m bs). Qed.
+
+Theorem C03_update_accepted_is_merge isc nm (m : model) (bs : list value) (m' : model) :
+  (merge_l isc nm (VModel m) bs = Ok m' <-> fst (update_graph isc nm m bs) = Ok m') /\
+  (merge_l isc nm (VModel m) bs = Ok m' -> update_graph isc nm m bs = (Ok m', m')).
+Proof. exact (update_graph_accepted isc nm m bs m'). Qed.
+
+Theorem C03_update_cycle_rejected isc nm (m : model) (bs : list value) :
+  wf (fst (merge_graph_l (VModel m) bs)) (snd (merge_graph_l (VModel m) bs)) ->
+  (exists v, reach (snd (merge_graph_l (VModel m) bs)) v v) -> update_graph isc nm m bs = (ErrCycle, m).
+Proof. exact (update_graph_cycle isc nm m bs). Qed.
+
+(* m = p >> q >> r (0,1,2);  m &= (r >> p)  is rejected and m is unchanged;  x & [y, z] holds the three nodes *)
+Example C03_update_example :
+  let isc := fun n => 100 <=? n in let nm := fun v => 100 + v in
+  match mk_model isc nm [0; 1; 2] [(0, 1); (1, 2)], mk_model isc nm [2; 0] [(2, 0)] with
+  | Ok m, Ok r => update_graph isc nm m [VModel r] = (ErrCycle, m)
+  | _, _ => False
+  end /\
+  match eval (fun n => 100 <=? n) 100 (EMergeL [] (ENode 0) [ENode 1; ENode 2]) with
+  | Ok v => set_eqb (v_nodes v) [0; 1; 2] = true
+  | _ => False
+  end.
+Proof. split; vm_compute; reflexivity. Qed.
+
 (* ---- what Model(nodes, edges) — hence link and merge, which end with it — returns ---------------------------- *)
 Theorem C03_model_sound isc nm (V : list node) (E : list edge) (m : model) : wf V E ->
   mk_model isc nm V E = Ok m ->
@@ -378,6 +416,10 @@ Print Assumptions C03_entries_exits.
 Print Assumptions C03_link_edges.
 Print Assumptions C03_link_1to1.
 Print Assumptions C03_merge_edges.
+Print Assumptions C03_merge_list_edges.
+Print Assumptions C03_update_rejected_is_identity.
+Print Assumptions C03_update_accepted_is_merge.
+Print Assumptions C03_update_cycle_rejected.
 Print Assumptions C03_model_sound.
 Print Assumptions C03_model_cycle_rejected.
 Print Assumptions C03_model_dag_accepted.
